@@ -408,6 +408,44 @@ type deepFrame struct {
 	chain []*ssa.Call
 }
 
+// chanOps: the channel operations of the frame's function that this frame can execute - the calls that lead to it may pass
+// constant flags (s.offer(ctx, x, false)) that switch parts of it off.
+func (fr deepFrame) chanOps() []chanOp {
+	var out []chanOp
+	withChainFlags(fr.chain, func() { out = chanOpsOf(fr.f) })
+	return out
+}
+
+// withChainFlags runs f with the boolean parameters that the calls of chain bind to constants known (variants.go).
+func withChainFlags(chain []*ssa.Call, f func()) {
+	var spec map[*ssa.Parameter]bool
+	for _, call := range chain {
+		if cal := staticCallee(&call.Call); cal != nil {
+			for k, v := range constBoolArgs(cal, &call.Call) {
+				if spec == nil {
+					spec = map[*ssa.Parameter]bool{}
+				}
+				spec[k] = v
+			}
+		}
+	}
+	if spec == nil {
+		f()
+		return
+	}
+	saved := activeParamFlags
+	merged := map[*ssa.Parameter]bool{}
+	for k, v := range saved {
+		merged[k] = v
+	}
+	for k, v := range spec {
+		merged[k] = v
+	}
+	activeParamFlags = merged
+	defer func() { activeParamFlags = saved }()
+	f()
+}
+
 func deepFrames(root *ssa.Function, depth int) []deepFrame {
 	var out []deepFrame
 	seen := map[*ssa.Function]bool{}
@@ -716,7 +754,7 @@ func ruleGroupTrigger(c *Ctx, r *R) {
 				continue
 			}
 			seenF[fr.f] = true
-			for _, op := range chanOpsOf(fr.f) {
+			for _, op := range fr.chanOps() {
 				for _, a := range op.arms {
 					if a.send || !isTrigChan(a.ch, fr.chain) {
 						continue
@@ -751,7 +789,7 @@ func ruleGroupTimerIdiom(c *Ctx, r *R) {
 	}
 	n := 0
 	for _, fr := range deepFrames(w, 2) {
-		for _, op := range chanOpsOf(fr.f) {
+		for _, op := range fr.chanOps() {
 			if op.kind == "recv" && op.arms[0].kind == "timer" {
 				n++
 				r.ok(timerDrainIdiom(op.in), "xsync.Group.PeriodicOrTrigger|timer-drain#"+itoa(n), posOf(op.in), "a bare receive from t.C must be guarded by !t.Stop() (the timer already fired), otherwise it blocks for a full interval or forever")
